@@ -122,9 +122,33 @@ class Gen:
             return {r.choice(["anyOf", "oneOf", "allOf"]): [self.sub(depth - 1, refs) for _ in range(r.randint(1, 3))]}
         return {"not": self.sub(depth - 1, refs)}
 
+    def inline_only(self):
+        """no class declares a property of its own, but an untyped sub-schema with `properties` sits in a keyword position of a
+        class (or of an array reached from it): `Property` appears only inside class arguments"""
+        r = self.rng
+        inner = {"properties": {n: self.leaf() for n in r.sample(CLEAN_PROPS, r.randint(1, 2))}}
+        if r.random() < 0.4:
+            inner["required"] = [next(iter(inner["properties"]))]
+        where = r.choice(["additionalProperties", "patternProperties", "propertyNames", "dependencies", "array-def"])
+        root = {"type": "object", "title": "Root"}
+        if where == "patternProperties":
+            root[where] = {"^x": inner}
+        elif where == "dependencies":
+            root[where] = {"a": inner}
+        elif where == "array-def":
+            root["additionalProperties"] = {"$ref": "#/definitions/rows"}
+            root["definitions"] = {"rows": {"type": "array", "items": inner}}
+        else:
+            root[where] = inner
+        if r.random() < 0.5:
+            root.setdefault("definitions", {})["other"] = {"type": "object", "title": "Other", "additionalProperties": r.choice([False, {"type": "string"}])}
+        return {"doc.json": root}
+
     def document(self):
         """(files: name -> document, entry file name)"""
         r = self.rng
+        if r.random() < 0.1:
+            return self.inline_only()
         other_defs, other_refs = {}, []
         if r.random() < 0.35:
             for i in range(r.randint(1, 2)):
